@@ -1994,3 +1994,16 @@ package mcp
 // C07 — the hand-written decoders of mcp_types.go are under the same safety sweep as the other client-side decoders
 //@ sweepscope[C07,C06] kinds=typeassert,nilmap,index,nilresult files=mcp_types.go
 //@
+// C09 — the stdio client's frames go out through its encoder only (one Encode per message)
+//@ sweepscope[C09] kinds=framedoutput files=transport_stdio.go,stdio_client.go
+//@
+// C08 — closing the stdio transport never waits for the writers' lock: a call blocked in a write to a stalled child is
+// what close() has to unblock
+//@ func stdioClientTransport.close
+//@   before call Close#1 assert[C08 close-does-not-hold-the-writers-lock] held(t.requestMutex) == 0
+//@
+// C11 — a listening stream that ends on its own cancels nothing: the shared cancel function belongs to whichever
+// stream is current, and only establishGetSSE (replacement) and close() may call it
+//@ func streamableHTTPClientTransport.establishGetSSE$1
+//@   ensures[C11 a-stream-that-ends-cancels-nothing-shared] cancels == old(cancels)
+//@
